@@ -27,6 +27,10 @@ class RemoveDebug(SuiteTransformer):
         if not isinstance(node, ast.If):
             return False
 
+        if node.orelse:
+            # The else branch is what runs when __debug__ is False, it can't be removed with the test
+            return False
+
         if isinstance(node.test, ast.Name) and node.test.id == '__debug__':
             return True
 
